@@ -183,6 +183,12 @@ class Ctx:
         opaque = {}
         for tr in evalr.ALL_TRACES:
             for e in tr.events:
+                if e.kind == "enter" and e.d.get("fi") is not None and evalr._generator_body(e.d["fi"].node) is not None:
+                    # a generator function is evaluated as the list of the values it yields: the values and their order are
+                    # right, the interleaving of its body with the consumer's is not
+                    for f in e.stack:
+                        opaque.setdefault(f.qualname, "a generator function (evaluated as the list of its values)")
+                    continue
                 if e.kind != "call":
                     continue
                 cal = e.d.get("callee")
